@@ -89,6 +89,9 @@ class Schema:
     def __ne__(self, other: "Schema") -> bool:
         return not self.__eq__(other)
 
+    def __hash__(self) -> int:
+        return hash((self._name, self._parent))
+
     @ignore_copy
     def __getattr__(self, item: str) -> "Table":
         return Table(item, schema=self)
